@@ -1052,8 +1052,31 @@ def _c02_xtype(tier):
             for T in "df":
                 S.add("seek 1 0 0", "read 1 %s f %d" % (T, N + 3))
         S.add("close 1")
-    # float / double files read through the integer types (scaling off): nearest integer, saturation with clipping on
+    # floating point numbers written into integer-lossless encodings with normalisation off: integers pass through unscaled
     import struct as _st
+    for fmt, ch in _fmts(exe, tier, (1, 2)):
+        sb = scen.sub(fmt)
+        w = scen.SUB_WIDTH.get(sb)
+        if not w or scen.major(fmt) == scen.SD2 or sb in (6, 7):
+            continue
+        u = 32 if sb in (0x40, 0x41, 0x42, 0x70, 0x71, 0x72, 0x73) else w
+        top = (1 << (w - 1)) - 1 if w <= 24 else (1 << (w - 1)) - (1 << (w - 25))
+        ks = [0, 1, -1, -5, 1000 if w > 11 else 100, top, -top, top // 3, -(top // 7)]
+        B = scen.block_hint(fmt, ch, RATE)
+        n = max(len(ks), (B + 3 if B > 1 else 0))
+        ks = (ks * (n // len(ks) + 1))[:n // ch * ch + ch]
+        ks = ks[:len(ks) // ch * ch]
+        vals = [float(k * (1 << (u - w))) for k in ks]
+        dt = lambda x: "%d:%d" % ((lambda b: (b >> 32, b & 0xFFFFFFFF))(_st.unpack("<q", _st.pack("<d", x))[0]))
+        ft = lambda x: str(_st.unpack("<i", _st.pack("<f", x))[0])
+        S.scn(fmt="0x%x" % fmt, ch=ch, T="d", kind="unnormw", fmode=1)
+        # (one setting off at a time: the writer has to look at the setting of its own type)
+        S.add("file 1 new", "open 0 vio w 1 %d %d %d" % (fmt, ch, RATE), "cmd 0 SET_NORM_DOUBLE 0",
+              "write 0 d i %d %s" % (len(vals), " ".join(dt(v) for v in vals)), "cmd 0 SET_NORM_DOUBLE 1", "cmd 0 SET_NORM_FLOAT 0",
+              "write 0 f i %d %s" % (len(vals), " ".join(ft(v) for v in vals)), "close 0",
+              "open 1 vio r 1 %d %d %d" % (fmt if scen.major(fmt) == scen.RAW else 0, ch, RATE), "read 1 i i %d" % (2 * len(vals) + ch),
+              "cmd 1 SET_NORM_DOUBLE 0", "seek 1 0 0", "read 1 d i %d" % (2 * len(vals)), "seek 1 0 0", "read 1 f i %d" % (2 * len(vals)), "close 1")
+    # float / double files read through the integer types (scaling off): nearest integer, saturation with clipping on
     fvals = [0.0, 0.5, -0.5, 1.5, 2.5, -1.5, -2.5, 0.49999997, 0.75, 1.0, -1.0, 3.25, 100.5, 101.5, 32766.5, 32767.0, 32767.5, 32768.0, -32768.0, -32768.5, -32769.0, 65536.0, 1e6,
              16777215.0, 16777216.0, 2147483520.0, 2147483648.0, -2147483648.0, -2147483904.0, 4294967296.0, -4294967296.0, 3e9, -3e9, 1e-3, -1e-3] + [rng.uniform(-40000, 40000) for _ in range(40)] + [rng.uniform(-3e9, 3e9) for _ in range(20)]
     def ftok(x):
